@@ -388,6 +388,17 @@ func (fs *fsMutable) Rename(ctx context.Context, op *fuseops.RenameOp) (err erro
 	fs.insertReadDirEntry(op.NewParent, &newRC)
 	fs.insertLookupEntry(op.NewParent, op.NewName, l.(lookupEntry))
 
+	// A directory holds one link per sub-directory: keep the count of both parents right when a directory moves
+	// (a directory is released when the kernel forgets it only once it is not linked any more).
+	if rC.Type == fuseutil.DT_Directory && op.OldParent != op.NewParent {
+		if p, found := fs.iNodeStore.Get(formKey(op.OldParent)); found {
+			p.(*nodeEntry).attr.Nlink--
+		}
+		if p, found := fs.iNodeStore.Get(formKey(op.NewParent)); found {
+			p.(*nodeEntry).attr.Nlink++
+		}
+	}
+
 	return nil
 }
 
